@@ -912,7 +912,7 @@ class GK(G):
             f = self.pick(FIELD_POOL)
             if f not in k.own_fields:
                 k.own_fields.append(f)
-        if self.chance(55) and "peer" not in inherited:
+        if self.chance(75) and "peer" not in inherited:
             # a field that will hold another instance (see the relay method)
             k.own_fields.insert(self.i(0, len(k.own_fields)), "peer")
         has_init = bool(k.own_fields) or self.chance(30)
@@ -943,7 +943,7 @@ class GK(G):
             if self._ret_closure:
                 self.closure_methods.add((k.name, m))
             methods.append(mb)
-        if self.chance(55):
+        if self.chance(70):
             # a method that reads / writes / compound-assigns fields of ANOTHER object: inside a class the compiler
             # knows the fixed slot of the class's own field names, which must not be applied to a foreign receiver
             def g(stmt):
@@ -966,7 +966,7 @@ class GK(G):
             # peer, whatever the first link of the chain is)
             rbody = [("expr", ("assign", ("prop", ("self",), "peer"), ("var", "o")))] if "peer" in k.all_fields() else []
             if rbody:
-                for _ in range(self.i(1, 4)):
+                for _ in range(self.i(2, 5)):
                     f = self.pick(FIELD_POOL)
                     base = ("prop", ("self",), "peer") if self.chance(70) else ("at", "peer")
                     tgt = ("prop", base, f)
@@ -1124,7 +1124,7 @@ class GK(G):
                 out.append(("print", ("call", ("prop", ("call", ("prop", ov, "cls"), []), "name"), [])))
             elif c < 97 and any(self.has_poke(kk) for _, kk in objs):
                 po, pk = self.pick([(oo, kk) for oo, kk in objs if self.has_poke(kk)])
-                meth = "relay" if (self.has_relay(pk) and self.chance(50)) else "poke"
+                meth = "relay" if (self.has_relay(pk) and self.chance(70)) else "poke"
                 out.append(guarded(("expr", ("call", ("prop", ("var", po), meth), [ov, self.expr("num", 1)]))))
                 for f in FIELD_POOL:
                     if f not in k.shadows():
@@ -1290,7 +1290,7 @@ class GE(G):
     def raise_source(self, depth):
         """Statements that (probably) raise. Returns (stmts, error class name or None)."""
         stmts, cls = self.raise_source0(depth)
-        if self.fn_ret and len(stmts) == 1 and stmts[0][0] == "expr" and self.chance(30):
+        if self.fn_ret and len(stmts) == 1 and stmts[0][0] == "expr" and self.chance(60):
             # the raising expression is the operand of a return: it is evaluated while the try is still active
             stmts = [("return", stmts[0][1])]
         return stmts, cls
